@@ -152,7 +152,11 @@ def run(chk):
     scratch = tempfile.mkdtemp(prefix="verif-c07-")
     try:
         sample = cases if not chk.quick() else rnd.sample(cases, min(len(cases), 120))
-        ctxs = [("", " and (b or ?b)"), ("not ", ""), ("(a or zb) or ", ""), ("not ", " and not a"), ("", "")]
+        ctxs = [("", " and (b or ?b)"), ("not ", ""), ("(a or zb) or ", ""), ("not ", " and not a"), ("", ""),
+                # the placeholder several times in one term (distributed forms)
+                ("({config.tags} and a) or (", " and b) or ({config.tags} and zb)"),
+                ("", " and ({config.tags} or a) and not (not {config.tags})"),
+                ("not ({config.tags} and a) or ", " or {config.tags} or ({config.tags} and b)")]
         for case in sample[: (120 if chk.quick() else 1500)]:
             pre, post = ctxs[rid % len(ctxs)]
             for c in ("".join(case["min"]), "".join(case["at"])):
@@ -200,8 +204,11 @@ def replay(chk, payload):
     if m["form"] == "placeholder":
         scratch = tempfile.mkdtemp(prefix="verif-c07-")
         try:
-            pre, post = m["input"].split("{config.tags}")
-            new = observe_placeholder(1, pre, post, m["config_tags"], scratch)
+            # (the recorded row holds the two parts; they may contain further placeholders)
+            pre, post = "".join(row["pre"]), "".join(row["post"])
+            c = m["config_tags"]
+            new = observe_placeholder(1, pre, post, c if not isinstance(c, list) else "(%s) and (%s)" % tuple(c), scratch,
+                                      c_ini=None if not isinstance(c, list) else "%s\n    %s" % tuple(c))
         finally:
             shutil.rmtree(scratch, ignore_errors=True)
     elif m["form"] == "list":
